@@ -220,6 +220,7 @@ def _viol(e, seed, key, label, kind, msg, eager_ok):
 
     f["int_unit_operand"] = _int_unit_operand(e) or _unit6(e)
     f["normalize_in_config"] = "normalize" in label
+    f["var_of_lambda"] = e[0] == "U" and e[1] == "var" and any(s_[0] == "Lam" for s_ in lang.subterms(e[3]))
     return core.violation(
         key,
         "deferred:" + label.split("+")[0],
